@@ -215,10 +215,13 @@ def _worker(job):
     try:
         mod = importlib.import_module(modname)
         BUILD_OVERRIDE = build
+        t0 = time.time()
         try:
             st = getattr(mod, fname)(arg, tier)
         finally:
             BUILD_OVERRIDE = None
+            if os.environ.get("VERIF_SHARD_TIMES"):
+                sys.stderr.write("SHARDTIME %.1f %s %s %r %s\n" % (time.time() - t0, modname, fname, arg, build))
         if build:
             st.extra = {"programs_on_extra_builds": st.evaluations}
             for v in st.violations:
